@@ -70,6 +70,8 @@ func init() {
 }
 
 func runC06(p *chk.Prog, r *chk.Report) {
+	// re-registration of recorded addresses checks every one of them (GUARD-SHARE, shared with C01)
+	c01GuardShare(p, r)
 	// what is re-adopted at a restart is kept: the family test, the happy path and the request tests of convergeBalancer
 	// (FAMILY-KEPT, HAPPY-PATH, REQUEST-CHANGE, shared with C02, C03) - a spurious clear is harmless while the allocator
 	// remembers the address and moves the Service after a restart
